@@ -28,7 +28,7 @@ REPO = "/repo"
 NPROC = os.cpu_count() or 4
 
 sys.path.insert(0, ROOT)
-from checks_registry import REGISTRY  # noqa: E402
+from checks_registry import REGISTRY, THOROUGH_SCALE  # noqa: E402
 
 
 def goenv():
@@ -335,7 +335,9 @@ def main():
             continue
         shards = test.get("shards", {}).get(tier, 1)
         checks = test.get("checks", {}).get(tier, 100)
-        limit = test.get("limit", {}).get(tier, 900 if tier == "quick" else 3600)
+        if tier == "thorough":
+            checks = int(checks * THOROUGH_SCALE.get(pid, 1))
+        limit = test.get("limit", {}).get(tier, 900 if tier == "quick" else 5400)
         extra = dict(test.get("env", {}))
         for idx in range(shards):
             s = splitmix(seed, pid, test.get("label", test["name"]), idx)
